@@ -235,6 +235,9 @@ func runEnc(prop string, seed uint64, tier, dir string) error {
 					}
 				}
 			}
+		case which < 7 && rng.Intn(8) == 0:
+			a, t := g.deepCT(3+rng.Intn(4), rng.Bool())
+			v, term, kind = a, "(EAct "+t+")", "element:action/deep-conntrack"
 		case which < 7:
 			a, t := g.action(2)
 			g.flushLate()
